@@ -486,6 +486,27 @@ func checkCase(c Case, e *env.Env) (*hx.Violation, info) {
 			if !x.s.Streams && ps[0].path != "/dest/"+r.id+"/init"+r.ext {
 				return hx.V("upload-path", "init path %q", ps[0].path)
 			}
+			// the init segment describes the same track as the one livesim2 serves for the representation (the sender adds
+			// boxes of its own - bit rate, kind, creation time - so handler, sample entry and timescale are compared)
+			initName := r.id + "/init.mp4"
+			if r.rep != nil {
+				initName = r.rep.InitURI
+			}
+			if ir := e.Srv.Get(ls.URL(x.refParts, e.Asset.Path, initName, x.s.TestNowMS)); ir.Code == 200 {
+				if rf, err := mp4.DecodeFileSR(bits.NewFixedSliceReader(ir.Body)); err == nil && rf.Init != nil {
+					sig := func(in *mp4.InitSegment) string {
+						tr := in.Moov.Trak
+						se := "?"
+						if tr.Mdia.Minf.Stbl.Stsd != nil && len(tr.Mdia.Minf.Stbl.Stsd.Children) > 0 {
+							se = tr.Mdia.Minf.Stbl.Stsd.Children[0].Type()
+						}
+						return fmt.Sprintf("handler %s, sample entry %s, timescale %d", tr.Mdia.Hdlr.HandlerType, se, tr.Mdia.Mdhd.Timescale)
+					}
+					if got, want := sig(f.Init), sig(rf.Init); got != want {
+						return hx.V("init-differs", "session %s rep %s: uploaded init segment is a track with %s; livesim2 serves %s for %s", x.id, r.id, got, want, initName)
+					}
+				}
+			}
 			for k := 2; k < len(ps); k++ {
 				if ps[k].startSeq < ps[k-1].endSeq {
 					return hx.V("uploads-overlap", "session %s rep %s: the upload to %s started before the upload to %s had ended (one segment at a time per representation)", x.id, r.id, ps[k].path, ps[k-1].path)
